@@ -90,6 +90,11 @@ def gen_c16(seed, policy=None):
     scn = S.normalize({"sims": sims, "conns": conns, "until": rng.randint(3, 5), "lazy": rng.random() < 0.5, "cache": rng.random() < 0.5})
     beh = {"kind": "agent", "agents": agents, "illegal": illegal,
            "tb_next": [ratios[0]] if rng.random() < 0.7 else [1, 2], "ev_next": [None, ratios[1], ratios[1]]}
+    if rng.random() < 0.15:
+        # the shipped LocalProxy with generator-style step() methods: the call-backs are yielded to mosaik
+        scn["transport"] = "local"
+        for s_ in scn["sims"]:
+            s_["gen"] = True
     yield {"id": [seed, ratios], "scn": scn, "seed": seed, "behaviour": beh, "policy": dict(policy or {})}
 
 
@@ -152,14 +157,17 @@ FAM_ALL = {}
 PROFILES = {
     "C01": [("random", {"fam": {"p_async": 0.2}}), ("random", {"fam": {"nsims": (3, 5), "nconns": (3, 7)}, "policy": {"early": 0.6}})],
     "C02": [("random", {"fam": {"p_async": 0.1}, "behaviour": {"p_future": 0.4, "ev_next": [None, 1, 2, 3]}}),
-            ("random", {"fam": {"types": ["event-based", "hybrid"], "until": (3, 5)}, "behaviour": {"p_future": 0.5, "future": [0, 1, 2, 3]}})],
+            ("random", {"fam": {"types": ["event-based", "hybrid"], "until": (3, 5)}, "behaviour": {"p_future": 0.5, "future": [0, 1, 2, 3]}}),
+            ("random", {"fam": {"nsims": (8, 11), "nconns": (6, 14), "until": (2, 3), "weak": 0.2}, "frac": 0.08})],
     "C03": [("random", {"fam": {"shifts": (0, 0, 1, 2, 3), "until": (3, 5), "p_two_entities": 0.4}}),
             ("random", {"fam": {"groups": False, "nsims": (2, 3), "until": (4, 6), "types": ["time-based", "time-based", "hybrid"]},
                         "behaviour": {"tb_next": [1, 1, 2, 3], "recur": 2}, "frac": 0.4}),
             ("random", {"fam": {"groups": False, "nsims": (2, 3), "until": (3, 6)}, "behaviour": {"tb_next": [1, 2, 4], "p_future": 0.3, "p_none": 0.2}})],
     "C05": [("random", {"fam": {"nsims": (2, 5), "nconns": (1, 7), "until": (2, 5), "p_async": 0.1}}),
             ("random", {"fam": {"shifts": (0, 1, 2, 3)}, "behaviour": {"p_future": 0.5, "future": [0, 1, 2, 3]}, "policy": {"early": 0.6}}),
-            ("paths", {"frac": 0.3})],
+            ("paths", {"frac": 0.3}),
+            # many simulators, sparse connections (heap / set / dictionary orders beyond a handful of simulators)
+            ("random", {"fam": {"nsims": (8, 11), "nconns": (6, 14), "until": (2, 3), "weak": 0.2}, "frac": 0.08})],
     "C07": [("random", {"fam": {"types": ["event-based", "hybrid", "hybrid"], "until": (3, 5)}, "behaviour": {"ev_next": [None, 1, 2, 3]}}),
             ("random", {"fam": {"types": ["hybrid"], "nsims": (2, 3), "nconns": (2, 5), "until": (3, 5)}, "policy": {"early": 0.6}}),
             ("paths", {"frac": 0.3})],
